@@ -109,6 +109,7 @@ typedef struct vnaproperty_yaml {
     const char         *vyml_filename;	/* filename for error messages */
     vnaerr_error_fn_t  *vyml_error_fn;	/* error reporting function */
     void	       *vyml_error_arg;	/* argument to error function */
+    void	       *vyml_path;	/* nodes being imported, innermost first */
 } vnaproperty_yaml_t;
 
 /* _vnaproperty_yaml_import: import properties from a YAML document */
